@@ -20,7 +20,7 @@ var c09Kinds = []map[string]string{
 }
 
 var c09Histories = []string{
-	"dial-noaccept", "accept-nodial", "dup-dial2", "dup-dial3", "accept-at-expiry", "dial-then-late-accept", "two-ids-unmatched",
+	"dial-noaccept", "accept-nodial", "dup-dial2", "dup-dial3", "accept-at-expiry", "dial-at-accept-expiry", "dial-then-late-accept", "two-ids-unmatched",
 }
 
 func init() {
@@ -36,11 +36,20 @@ func init() {
 				for _, hist := range c09Histories {
 					for _, side := range []string{"host", "plugin"} {
 						eps := []string{"0"}
-						if hist == "accept-at-expiry" {
+						if hist == "accept-at-expiry" || hist == "dial-at-accept-expiry" {
 							eps = []string{"-2ms", "-1ns", "0", "1ns", "2ms"}
 						}
 						for _, e := range eps {
 							out = append(out, sp("C09", fmt.Sprintf("fixed/%s%s/%s/%s/%s", kind["proto"], kind["mux"], hist, side, e), seed, cp(kind, "hist", hist, "side", side, "eps", e)))
+							if len(eps) > 1 {
+								// the same cell with delays woven into the expiry paths of both brokers
+								for v := 0; v < 4; v++ {
+									s := sp("C09", fmt.Sprintf("fixed+delay%d/%s%s/%s/%s/%s", v, kind["proto"], kind["mux"], hist, side, e), seed+uint64(v)*7919, cp(kind, "hist", hist, "side", side, "eps", e))
+									s.Focus = "MuxBroker.Accept,MuxBroker.timeoutWait,MuxBroker.Run,GRPCBroker.timeoutWait,GRPCBroker.DialWithOptions,GRPCBroker.knock"
+									s.DelayClass = "tiny"
+									out = append(out, s)
+								}
+							}
 						}
 					}
 				}
@@ -191,6 +200,25 @@ func runC09(r *h.Run) {
 			o := accept(other(side), id)
 			if o.Hung {
 				mustFail(hist+"-accept:"+other(side), o)
+			}
+			wg.Wait()
+		case "dial-at-accept-expiry":
+			// the accept is issued first and nobody dials until its own expiry instant
+			id := newID()
+			eps := parseDur(epsS)
+			var wg sync.WaitGroup
+			wg.Add(1)
+			go k.Trap(func() {
+				defer wg.Done()
+				o := accept(other(side), id)
+				if o.Hung {
+					mustFail(hist+"-accept:"+other(side), o)
+				}
+			})
+			time.Sleep(5*time.Second + eps)
+			o := dial(side, id)
+			if o.Hung {
+				mustFail(hist+":"+side, o)
 			}
 			wg.Wait()
 		case "two-ids-unmatched":
